@@ -98,6 +98,11 @@ CLAIMED = {
         text="Each configuration field read back through get_configuration()/get_backend() must be exactly the scalar it was constructed from, for every configurable layer (both construction routes) and for "
              "make_parameter_pack_for at depth 1..10 where all nine layers share one configuration type so a positional swap cannot be masked by types. Accessor/trait types are compile witnesses in C13.",
         note="array backend's configuration handled with ownership (C12); rebuild-equality follows from lookups being functions of (configuration, storage)"),
+    "C18": dict(
+        level="proof", design="5/C18", technique="abstract interpretation of the two numeric loops in purpose-built domains (power-of-two-below-i; symbolic exponents with a polynomial invariant) over loop-cut LLVM IR, plus allocation-expression rules for the sizing clause",
+        text="Per unsigned width 8/16/32/64 the loop of round_pow2 is shown to keep its value in the domain 'power of two whose half is below i' and to exit with the least power of two >= i; ipow's exponent invariant alpha + beta*p = e is shown "
+             "inductive as a polynomial identity. Each argument covers every input of the width at once. The sizing consequence is decided at every Morton/Hilbert allocation site. Loops of another shape are analysis-broken, not passed.",
+        note="soundness of the two domains' transfer functions is part of the trusted base (stated in engine/rules/c18.py); precondition 1 <= i <= 2^(w-1)"),
     "C19": dict(
         level="other", design="5/C19", technique="shape rule over clang's type-checked syntax tree of every nd_map instantiation (canonical counted loop + exactly-one-call body, recursive or loop-nest formulation) + exact IR facts for tail/cat; induction on N",
         text="Exactly-once coverage is derived by induction from per-instantiation facts: one canonical loop over extent component 0 (from 0, strict bound, +1, nothing modified) whose body makes exactly one forwarding call, and exact tail/cat. "
